@@ -269,6 +269,8 @@ pub struct TransportReaderSeam {
     io: PhysLayer,
     pub handle: PipeHandle,
     level: DecodeLevel,
+    /// `drain` calls `read` once more between a completed `read` and `pop`
+    pub read_again_before_pop: bool,
 }
 
 impl TransportReaderSeam {
@@ -303,6 +305,7 @@ impl TransportReaderSeam {
             io: PhysLayer::Verif(p),
             handle,
             level: decode_level(decode_all),
+            read_again_before_pop: false,
         }
     }
 
@@ -318,29 +321,42 @@ impl TransportReaderSeam {
             match res {
                 Poll::Pending => return (out, None),
                 Poll::Ready(Err(e)) => return (out, Some(format!("{e:?}"))),
-                Poll::Ready(Ok(())) => match self.reader.pop() {
-                    None => {}
-                    Some(TransportData::Fragment(f)) => out.push(TransportOut::Fragment {
-                        id: f.info.id,
-                        src: f.info.addr.link.raw_value(),
-                        broadcast: f.info.broadcast.map(|m| match m {
-                            crate::link::header::BroadcastConfirmMode::Optional => 0,
-                            crate::link::header::BroadcastConfirmMode::Mandatory => 1,
-                            crate::link::header::BroadcastConfirmMode::NotRequired => 2,
-                        }),
-                        data: f.data.to_vec(),
-                    }),
-                    Some(TransportData::LinkLayerMessage(m)) => {
-                        out.push(TransportOut::LinkMessage {
-                            src: m.source.raw_value(),
-                            request: matches!(
-                                m.message,
-                                crate::transport::LinkLayerMessageType::LinkStatusRequest
-                            ),
-                        })
+                Poll::Ready(Ok(())) => {
+                    if self.read_again_before_pop {
+                        // the session layer may look at a fragment, keep it, and call `read` again
+                        // (RequestGuard::retain): that read must not disturb the fragment
+                        let fut = self.reader.read(&mut self.io, self.level);
+                        let mut fut = std::pin::pin!(fut);
+                        if let Poll::Ready(Err(e)) = poll_once(fut.as_mut()) {
+                            return (out, Some(format!("{e:?}")));
+                        }
                     }
-                },
+                    self.pop_into(&mut out)
+                }
             }
+        }
+    }
+
+    fn pop_into(&mut self, out: &mut Vec<TransportOut>) {
+        match self.reader.pop() {
+            None => {}
+            Some(TransportData::Fragment(f)) => out.push(TransportOut::Fragment {
+                id: f.info.id,
+                src: f.info.addr.link.raw_value(),
+                broadcast: f.info.broadcast.map(|m| match m {
+                    crate::link::header::BroadcastConfirmMode::Optional => 0,
+                    crate::link::header::BroadcastConfirmMode::Mandatory => 1,
+                    crate::link::header::BroadcastConfirmMode::NotRequired => 2,
+                }),
+                data: f.data.to_vec(),
+            }),
+            Some(TransportData::LinkLayerMessage(m)) => out.push(TransportOut::LinkMessage {
+                src: m.source.raw_value(),
+                request: matches!(
+                    m.message,
+                    crate::transport::LinkLayerMessageType::LinkStatusRequest
+                ),
+            }),
         }
     }
 
